@@ -27,8 +27,10 @@ def sh(cmd, cwd=None, timeout=3600, env=None):
 
 def demo_flags(src):
     txt = open(src).read()
+    notes = os.path.join(os.path.dirname(src), 'NOTES.md')
+    ntxt = open(notes).read() if os.path.exists(notes) else ''
     fl = []
-    if 'CLIPPER2_HI_PRECISION' in txt and '#error' in txt:
+    if ('CLIPPER2_HI_PRECISION' in txt and '#error' in txt) or '-DCLIPPER2_HI_PRECISION' in ntxt:
         fl.append('-DCLIPPER2_HI_PRECISION=1')
     if re.search(r'#\s*ifndef\s+USINGZ[^\n]*\n\s*#\s*error', txt):
         fl.append('-DUSINGZ')
